@@ -108,6 +108,15 @@ func keyScenarios(mode string, big bool) []*Desc {
 	d.OctLo, d.OctHi = 0, 1
 	d.ChSet = []int{0, 1}
 	out = append(out, d)
+	// two sub-handlers of one device deliver the same key code (e.g. a gamepad and its touchpad both have BTN_LEFT)
+	d = base("subhandlers", mode)
+	d.Mappings = []MapDesc{
+		{Name: "M0", Keys: km{K1: {60, 0}, K2: {64, 0}}, SubKeys: map[string]map[string]KeyNote{"Touchpad": {K1: {72, 0}, K3: {60, 0}}}},
+		{Name: "M1", Keys: km{K1: {62, 0}}, SubKeys: map[string]map[string]KeyNote{"Touchpad": {K1: {62, 1}}}},
+	}
+	acts(d, OU, "octave_up", MU, "mapping_up", MD, "mapping_down")
+	d.OctLo, d.OctHi = 0, 1
+	out = append(out, d)
 	// misc actions: multinote, cc-learning
 	d = base("misc-actions", mode)
 	d.Mappings = []MapDesc{{Name: "M0", Keys: km{K1: {60, 0}, K2: {64, 0}, K3: {67, 0}}}}
